@@ -242,8 +242,11 @@ def reconcile(ctrl, ns, name, faults=None):
     return op
 
 
-def sleep(seconds):
-    return {"op": "sleep", "seconds": int(seconds)}
+def sleep(seconds, millis=0):
+    op = {"op": "sleep", "seconds": int(seconds)}
+    if millis:
+        op["millis"] = int(millis)      # the clock then carries a fraction of a second; stored stamps do not
+    return op
 
 
 def dumps(o):
